@@ -32,6 +32,14 @@ func runC13(c *Ctx) {
 	c13SingleCommit(c)
 	c13ReadOnlyIndexScan(c)
 	indexEntryName(c, "R3")
+	scannerCloseErrorReported(c, "R6")
+	{
+		// nested .gitattributes patterns are rebased with tools.TrimCurrentPrefix (rule of C19, shared)
+		saved := c.RulePrefix
+		c.RulePrefix = saved + "C19/"
+		c19ArgPrefix(c)
+		c.RulePrefix = saved
+	}
 	noFetchIncludeIn(c, "R1", "fsck examines every object except those under lfs.fetchexclude: with lfs.fetchinclude set, corrupt objects outside the include patterns are neither reported nor moved aside", "fsckCommand", "doFsckObjects", "doFsckPointers")
 	treeListingsCoverWholeTree(c, "R5")
 	attrFilterKeepsOptOuts(c, "R4")
